@@ -29,6 +29,10 @@ def prop_modules(prop):
 
 
 
+# hand-model properties integrated so far (checks/<cxx>.py, lean/Drv<Cxx>.lean)
+H_PROPS = ['C07']
+
+
 def parse_corr(out):
     m = re.search(r'CORR lines=(\d+) comps=(\d+) mismatches=(\d+) skipped=(\d+) nontrivial=(\d+) units=(\d+) speccmp=(\d+) specmismatch=(\d+)', out)
     if not m: return None
@@ -213,7 +217,7 @@ def setup():
             up = os.path.join(CACHE, prop + '.units')
             e = run_bins(bins, ['trace'], up) or gen_lean(up, prop)
             if e: log('setup:', e); rcs.append(1)
-    rc, out, dt = lake_build(['GlmVerif', 'driver'], timeout=7200)
+    rc, out, dt = lake_build(['GlmVerif', 'driver'] + ['drv_' + h.lower() for h in H_PROPS], timeout=14400)
     log('setup: lake build rc=%d in %.0fs' % (rc, dt))
     if rc != 0: print(out[-3000:])
     log('setup done in %.0fs' % (time.time() - t0))
